@@ -46,10 +46,17 @@ class Prog:
     cont: frozenset = frozenset()      # ids realised as the resumption of the parent's generator
     override: dict = field(default_factory=dict)   # (p, q) -> ticks: link.latency object (constant)
     real_dist: bool = False  # link.latency is a real ConstantLatency (else a duck-typed object with sample())
+    cby: dict = field(default_factory=dict)        # timer id -> id of the event whose handler cancels it
 
     def key(self):
         return (tuple(self.ep), self.np, tuple(sorted(self.links)), tuple(sorted(self.lat.items())), self.w,
-                self.end_t, tuple(self.evs))
+                self.end_t, tuple(self.evs), tuple(sorted(self.cby.items())))
+
+    def cancels(self):
+        out = {}
+        for c, b in self.cby.items():
+            out.setdefault(b, []).append(c)
+        return out
 
     def part_of_ev(self, i):
         return self.ep[self.evs[i - 1][1] - 1]
@@ -80,6 +87,13 @@ class Prog:
                         assert dt == self.override[(a, b)]
                 if i in self.cont:
                     assert self.evs[par - 1][1] == g
+        for c, b in self.cby.items():
+            # a timer of the canceller's own entity, due strictly later, created strictly earlier:
+            # the outcome of cancel() then does not depend on the order of equal timestamps
+            tc, gc, pc = self.evs[c - 1]
+            tb, gb, _pb = self.evs[b - 1]
+            assert gc == gb and tb < tc and c not in self.cont and b not in self.cont
+            assert pc == 0 or (self.evs[pc - 1][1] == gc and self.evs[pc - 1][0] < tb)
         if self.links:
             assert 1 <= self.w <= min(self.lat.values())
 
@@ -90,23 +104,34 @@ class Prog:
         is the engine's tie rule (used by the independent-partitions clause)."""
         import heapq
         kids = self.kids()
+        cancels = self.cancels()
         new_of, order = {}, []
         heap = []
+        pending, cancelled = set(), set()
         for i in kids[0]:
             new_of[i] = len(order) + 1
             order.append(i)
+            pending.add(i)
             heapq.heappush(heap, (self.evs[i - 1][0], new_of[i], i))
         while heap:
             _t, _n, i = heapq.heappop(heap)
+            pending.discard(i)
+            if i in cancelled:
+                continue            # never delivered, its children are never created
+            for c in cancels.get(i, ()):
+                if c in pending:
+                    cancelled.add(c)
             ks = [c for c in kids[i] if c not in self.cont] + [c for c in kids[i] if c in self.cont]
             for c in ks:
                 new_of[c] = len(order) + 1
                 order.append(c)
+                pending.add(c)
                 heapq.heappush(heap, (self.evs[c - 1][0], new_of[c], c))
         evs = [(self.evs[i - 1][0], self.evs[i - 1][1], new_of.get(self.evs[i - 1][2], 0)) for i in order]
         return Prog(ep=self.ep, np=self.np, links=self.links, lat=self.lat, w=self.w, end_t=self.end_t, evs=evs,
-                    cont=frozenset(new_of[c] for c in self.cont), override=self.override,
-                    real_dist=self.real_dist)
+                    cont=frozenset(new_of[c] for c in self.cont if c in new_of), override=self.override,
+                    real_dist=self.real_dist,
+                    cby={new_of[c]: new_of[b] for c, b in self.cby.items() if c in new_of and b in new_of})
 
     @staticmethod
     def from_state(st):
@@ -116,7 +141,8 @@ class Prog:
         ovl = sorted(tuple(x) for x in c.get("ovl", ()))      # links declaring a LatencyDistribution
         return Prog(ep=list(c["ep"]), np=c["np"], links=[tuple(x) for x in links], lat=lat, w=st["w"],
                     end_t=c["endT"], evs=[(e["t"], e["tgt"], e["par"]) for e in st["ev"]],
-                    override={l: lat[l] for l in ovl}, real_dist=bool(ovl))
+                    override={l: lat[l] for l in ovl}, real_dist=bool(ovl),
+                    cby={i: e["cby"] for i, e in enumerate(st["ev"], start=1) if e.get("cby")})
 
 
 @dataclass
@@ -215,6 +241,8 @@ class World:
         self.prog, self.opts, self.mode = prog, opts, mode
         self.tick_ns = opts.tick_ns
         self.kids = prog.kids()
+        self.cancels = prog.cancels()
+        self.created = {}                                # event id -> Event (timers a handler may cancel)
         self.nodes = {e: Node(e, self) for e in range(1, len(prog.ep) + 1)}
         self.elog = {e: [] for e in self.nodes}          # entity -> [(i, now_ns)]
         self.precs = {p: [] for p in range(1, prog.np + 1)}   # partition -> [window dict]
@@ -252,8 +280,25 @@ class World:
                 else:
                     self.precs[p][-1]["recs"].append(("d", i, now_ns))
             else:
-                self.ilog[p].append((i, now_ns))
+                self.ilog[p].append(("I", i, now_ns))
                 self.threads[p].add(threading.get_ident())
+
+    def note(self, p, kind, c):
+        """A cancel() call ("x") or the pop of a cancelled event ("k") in partition p of the parallel run."""
+        if self.mode != "par":
+            return
+        if self.prog.links:
+            if self.precs[p]:
+                self.precs[p][-1]["recs"].append((kind, c))
+        else:
+            self.ilog[p].append((kind, c))
+
+    def do_cancels(self, i):
+        for c in self.cancels.get(i, ()):
+            ev = self.created.get(c)
+            if ev is not None:
+                ev.cancel()
+                self.note(self.prog.part_of_ev(i), "x", c)
 
     def on_skip(self, part, event_type, ev_time):
         try:
@@ -273,7 +318,9 @@ class World:
             a, b = self.prog.part_of_ev(parent), self.prog.part_of_ev(c)
             if a != b and (a, b) in self.prog.override:
                 at = now_ns      # the coordinator overwrites it with send_time + link.latency.sample()
-        return Event(time=Instant(at), event_type=f"e{c}", target=self.nodes[g])
+        ev = Event(time=Instant(at), event_type=f"e{c}", target=self.nodes[g])
+        self.created[c] = ev
+        return ev
 
     def out_events(self, i, now_ns):
         return [self.child_event(i, c, now_ns) for c in self.kids[i] if c not in self.prog.cont]
@@ -282,6 +329,7 @@ class World:
         i = int(event.event_type[1:])
         now_ns = node.now.nanoseconds
         self.record(node._idx, i, now_ns)
+        self.do_cancels(i)
         if any(c in self.prog.cont for c in self.kids[i]):
             return self._process(node, i)
         out = self.out_events(i, now_ns)
@@ -330,7 +378,9 @@ def _initial_events(world: World):
     out = []
     for i, (t, g, par) in enumerate(world.prog.evs, start=1):
         if par == 0:
-            out.append((i, Event(time=Instant(t * world.tick_ns), event_type=f"e{i}", target=world.nodes[g])))
+            ev = Event(time=Instant(t * world.tick_ns), event_type=f"e{i}", target=world.nodes[g])
+            world.created[i] = ev
+            out.append((i, ev))
     return out
 
 
@@ -439,8 +489,21 @@ def _wrap_partition(world: World, sim, p: int):
             world.xrecs.append((i, p, len(world.precs[p]), ev.time.nanoseconds))
         return schedule(events)
 
+    heap = sim._event_heap
+    heap_pop = heap.pop
+
+    def wrapped_pop():
+        ev = heap_pop()
+        if ev._cancelled:           # lazy deletion: make the pop of a cancelled event observable
+            try:
+                world.note(p, "k", int(ev.event_type[1:]))
+            except ValueError:
+                pass
+        return ev
+
     sim._run_window = wrapped_run_window
     sim.schedule = wrapped_schedule
+    heap.pop = wrapped_pop
 
 
 # ---------------------------------------------------------------------------
@@ -471,7 +534,7 @@ def make_trace(tid: int, prog: Prog, par: World, ref: World) -> dict:
                     if r[0] == "d":
                         log.append(["d", p, r[1], par.ticks(r[2])])
                     else:
-                        log.append(["s", p, r[1]])
+                        log.append([r[0], p, r[1]])      # "s" | "x" | "k"
                 log.append(["D", p])
             if raised and k + 1 == nwin:
                 log.append(["C"])       # run() raised during (or instead of) this barrier
@@ -486,12 +549,12 @@ def make_trace(tid: int, prog: Prog, par: World, ref: World) -> dict:
             n0, s0 = win_pos(par, par.precs[1][0]["end"])
     else:
         for p in sorted(par.ilog):
-            for i, ns in par.ilog[p]:
-                log.append(["I", p, i, par.ticks(ns)])
+            for r in par.ilog[p]:
+                log.append(["I", p, r[1], par.ticks(r[2])] if r[0] == "I" else [r[0], p, r[1]])
     log.append(["end"])
     return {"id": tid, "mode": "coord" if coord else "indep", "ep": prog.ep, "np": prog.np,
             "links": [[a, b, prog.lat[(a, b)]] for (a, b) in prog.links], "w": prog.w, "endT": prog.end_t,
-            "n0": n0, "s0": s0, "evs": [list(e) for e in prog.evs], "seq": ref.entity_log_ticks(), "log": log,
+            "n0": n0, "s0": s0, "evs": [list(e) + [prog.cby.get(i, 0)] for i, e in enumerate(prog.evs, start=1)], "seq": ref.entity_log_ticks(), "log": log,
             "ovl": [list(l) for l in sorted(prog.override)] if prog.real_dist else [], "err": err}
 
 
